@@ -1216,8 +1216,7 @@ func (f *fn) compound(n ast.Node, ind string, rest cont, gen func(ind string, k 
 	tup := f.tuple(mod)
 	body := gen(ind+"  ", func(ind string) string { return ind + tup + "\n" })
 	if len(mod) == 0 {
-		pos := f.p.fset.Position(n.Pos())
-		return ind + fmt.Sprintf("(* %s:%d: statement assigns no variable of the function: no effect *)\n", filepath.Base(pos.Filename), pos.Line) + rest(ind)
+		return ind + "(* a statement that assigns no variable of the function (no effect) is omitted here *)\n" + rest(ind)
 	}
 	return bindTuple(ind, tup, len(mod), body, rest(ind))
 }
@@ -1456,8 +1455,11 @@ func (f *fn) switchStmt(s *ast.SwitchStmt, ind string, k cont) string {
 		if len(tests) == 1 {
 			test = stripParens(test)
 		}
-		pos := f.p.fset.Position(cc.Pos())
-		out += cur + "if " + test + " then   (* case at line " + fmt.Sprint(pos.Line) + " *)\n"
+		var labels []string
+		for _, ce := range cc.List {
+			labels = append(labels, f.src(ce))
+		}
+		out += cur + "if " + test + " then   (* " + comment("case "+strings.Join(labels, ", ")) + " *)\n"
 		out += f.stmts(f.chain(s, i), cur+"  ", k)
 		out += cur + "else\n"
 	}
@@ -1603,10 +1605,10 @@ func (f *fn) forStmt(s *ast.ForStmt, ind string) string {
 	loopConds := f.conds
 	f.conds = saved
 	for _, c := range loopConds {
-		f.cond("in every iteration %s <= %s < %s of the loop at line %d: %s", f.src(init.Rhs[0]), iv.Name, f.src(condE.Y), pos.Line, c)
+		f.cond("in every iteration %s <= %s < %s of the loop: %s", f.src(init.Rhs[0]), iv.Name, f.src(condE.Y), c)
 	}
-	aux := "(* " + comment(fmt.Sprintf("%s:%d  for %s := %s; %s < %s; %s++ { ... }   %s = remaining iterations; returns (%s)",
-		filepath.Base(pos.Filename), pos.Line, iv.Name, f.src(init.Rhs[0]), iv.Name, f.src(condE.Y), iv.Name, fuel, strings.Join(namesOf(f, mod), ", "))) + " *)\n"
+	aux := "(* " + comment(fmt.Sprintf("%s  for %s := %s; %s < %s; %s++ { ... }   %s = remaining iterations; returns (%s)",
+		filepath.Base(pos.Filename), iv.Name, f.src(init.Rhs[0]), iv.Name, f.src(condE.Y), iv.Name, fuel, strings.Join(namesOf(f, mod), ", "))) + " *)\n"
 	aux += "Fixpoint " + lname + " (" + fuel + " : nat) (" + iname + " : Z) " + strings.Join(params, " ") + " {struct " + fuel + "} : " + f.tupleType(mod) + " :=\n"
 	aux += "  match " + fuel + " with\n  | O => " + f.tuple(mod) + "\n  | S " + fuel + " =>\n" + strings.TrimRight(body, "\n") + "\n  end.\n"
 	f.aux = append(f.aux, aux)
@@ -1786,7 +1788,8 @@ func (tr *translator) translate(p *pkgInfo, t target) {
 			sig = comment(strings.Join(strings.Fields(string(src[a:b])), " "))
 		}
 	}
-	fmt.Fprintf(&tr.out, "\n(* ---- %s:%d  %s ---- *)\n", rel, pos.Line, sig)
+	// no line numbers in the output: an edit that only moves code leaves the generated file byte-identical
+	fmt.Fprintf(&tr.out, "\n(* ---- %s  %s ---- *)\n", rel, sig)
 	for _, a := range f.aux {
 		tr.out.WriteString(a)
 	}
